@@ -30,7 +30,7 @@ ASSUMPTIONS = [
 REPLAY_ATTEMPTS = 2
 
 EVENTS = ["connect", "connect", "user", "user", "user", "pass", "quit", "drop", "drop_mid", "idle", "garbage", "error", "pwd", "quit_reset",
-          "cmd_reset"]
+          "cmd_reset", "xfer", "xfer"]
 EVENT = st.tuples(st.sampled_from(EVENTS), st.integers(0, 255), st.integers(0, 255))
 CASE = st.tuples(st.sampled_from([None, 1, 2, 3]), st.sampled_from([None, 1, 2]), st.sampled_from([None, 1, 2]),
                  st.sampled_from([None, 1]), st.sampled_from([None, 30]), st.lists(EVENT, min_size=5, max_size=30),
@@ -136,6 +136,42 @@ async def _run(loop, case, info):
             elif ev == "pwd":
                 code, _ = await raw.cmd("PWD")
                 hist.append(("pwd", k, code))
+            elif ev == "xfer":
+                # the session goes through a transfer state before it ends: refused for lack of a data connection (425
+                # after wait_future_timeout), completed, aborted, or still waiting when the next event ends the session
+                code, lines = await raw.cmd("EPSV")
+                hist.append(("epsv", k, code))
+                if code == "229":
+                    raw.passive_port = harness.parse_passive(code, lines[-1])
+                    variant = y % 4
+                    if variant in (1, 2):
+                        d = await raw.open_data()
+                        await asyncio.sleep(0.05)
+                    code, _ = await raw.cmd("LIST" if variant != 2 else "STOR /up%d" % k)
+                    seq = [code]
+                    if code == "150":
+                        if variant == 0:
+                            seq.append((await raw.reply())[0])  # 425 once wait_future_timeout has passed
+                        elif variant == 1:
+                            await harness.read_all(d[0], 20)
+                            d[1].close()
+                            seq.append((await raw.reply())[0])
+                        elif variant == 2:
+                            d[1].write(b"x" * 10)
+                            await asyncio.sleep(0.05)
+                            raw.send("ABOR")
+                            seq.append((await raw.reply())[0])
+                            seq.append((await raw.reply())[0])
+                            d[1].close()
+                        else:
+                            # the worker is still waiting for its data connection when the peer vanishes
+                            raw.close()
+                            s["dead"] = True
+                            info["abnormal"] = True
+                    elif variant in (1, 2):
+                        d[1].close()
+                    info["transfer_state"] = True
+                    hist.append(("xfer", k, variant, seq))
             elif ev == "quit":
                 code, _ = await raw.cmd("QUIT")
                 s["dead"] = True
@@ -245,7 +281,7 @@ def check_case(ctx, case):
         nt = info.get("max_live", 0) >= 2 and (info.get("abnormal") or info.get("reuser"))
         ctx.count(case, bool(nt), sample=dict(server_limit=smax, user_limits=dict(a=ma, b=mb, anonymous=manon), idle_timeout=idle,
                                              close_last=close_last, tape=tape[:6], history=info["hist"][:14]),
-                  classes=["smax_%s" % smax, "idle_%s" % idle] + [k for k in ("abnormal", "reuser", "over_user_limit") if info.get(k)]
+                  classes=["smax_%s" % smax, "idle_%s" % idle] + [k for k in ("abnormal", "reuser", "over_user_limit", "transfer_state") if info.get(k)]
                   + ["live_%d" % min(info.get("max_live", 1), 4)]
                   + (["greeting_421"] if any(h[0] == "connect" and h[1] == "421" for h in info["hist"]) else []))
 
